@@ -216,7 +216,7 @@ theorem roundtrip_header_partial (ver : Nat) (hv : ver = 3 ∨ ver = 4)
     (hmax : (sizesOf ver deflate items datas).total ver ≤ 2147483647) :
     ∃ h, Header.read (writeDf ver deflate items datas) = .ok h
       ∧ h.version = ver ∧ h.numItems = items.length ∧ h.numData = datas.length
-      ∧ h.numItemTypes = (groupTypes items 0 []).length
+      ∧ h.numItemTypes = (groupTypes items 0).length
       ∧ h.checkSizeAndSwaplen
           = .ok { expectedSize := ((sizesOf ver deflate items datas).total ver : Nat), crude := false } :=
   writer_header_accepted ver hv deflate items datas hmax
